@@ -621,6 +621,12 @@ pub fn style_from_json(j: &serde_json::Value) -> TextStyle {
 fn float_text(f: f64, form: u8) -> String {
     match form {
         1 => format!("{:e}", f),
+        // plain decimal expansion without an exponent: integers beyond the u64 range come out as long digit strings
+        3 => {
+            let t = format!("{}", f);
+            // Display prints "-0" for negative zero, which reads back as an integer zero: keep the fraction
+            if t == "-0" || t == "0" { format!("{:?}", f) } else if t.contains('.') || f.abs() >= 1.8446744073709552e19 { t } else { format!("{:?}", f) }
+        }
         2 => {
             let s = format!("{:E}", f);
             // "1E300" -> "1E+300": an explicit plus sign is valid JSON
